@@ -48,7 +48,7 @@ def build_harness(real=False, inproc=True):
     return time.time() - t0
 
 def harness(args, timeout=3000):
-    rc, out = sh([RVREAL if args[0] in ('realobs', 'realfs', 'serve') else RVH] + args, timeout=timeout)
+    rc, out = sh([RVREAL if args[0] in ('realobs', 'realfs', 'serve', 'hash') else RVH] + args, timeout=timeout)
     if rc != 0:
         raise ToolError('harness %s exited %d: %s' % (args[:2], rc, out[-2000:]))
     last = [l for l in out.strip().split('\n') if l.startswith('{')]
@@ -131,10 +131,12 @@ def tlc_trace(module, cfg, trace, timeout=3000):
         rc, out = sh('timeout %d tlc -workers 1 -metadir %s -cleanup -noGenerateSpecTE -config %s.cfg %s.tla' % (timeout, md, cfg, module), cwd=SPEC, timeout=timeout + 60, env=env)
     finally:
         shutil.rmtree(md, ignore_errors=True)
-    viol, accepted, rejected, err = [], None, None, None
+    viol, accepted, rejected, err, diverged = [], None, None, None, []
     for l in out.split('\n'):
         m = re.match(r'<<"VIOLATED", "(\w+)", "([^"]*)", (\d+)>>', l)
         if m: viol.append((m.group(1), m.group(2), int(m.group(3))))
+        m = re.match(r'<<"DIVERGED", "(\w+)", "([^"]*)", (\d+)>>', l)
+        if m: diverged.append((m.group(1), m.group(2), int(m.group(3))))
         m = re.match(r'<<"ACCEPTED", (\d+)>>', l)
         if m: accepted = int(m.group(1))
         m = re.match(r'<<\s*"REJECTED",\s*(\d+)', l)
@@ -145,7 +147,7 @@ def tlc_trace(module, cfg, trace, timeout=3000):
     if accepted is None and rejected is None:
         lines = [l for l in out.split('\n') if not NOISE.match(l)]
         raise ToolError('TLC trace validation failed (%s): %s' % (module, '\n'.join(lines[-30:])[:4000]))
-    return {'violations': viol, 'accepted': accepted, 'rejected': rejected}
+    return {'violations': viol, 'accepted': accepted, 'rejected': rejected, 'diverged': diverged}
 
 def read_trace(path):
     return [l for l in open(path).read().split('\n') if l]
